@@ -503,4 +503,68 @@ theorem strcmpLoop_spec (ct : CT) (a b : Buf) : ∀ (la lb : List Nat) (i j f : 
           · simp [hx, hxy]
 
 
+/-! ### searches for one unit -/
+set_option linter.unusedSimpArgs false
+
+theorem memchrLoop_spec (b : Buf) (p c : Nat) : ∀ (r : Nat) (l : List Nat) (i : Nat), b.drop (p + i) = l →
+    (r ≤ l.length ∨ c ∈ l) →
+    memchrLoop b p c r i = .ok (((l.take r).findIdx? (· == c)).map (fun k => p + (i + k))) := by
+  intro r
+  induction r with
+  | zero => intro l i _ _; simp [memchrLoop]
+  | succ r ih =>
+    intro l i hd hp
+    cases l with
+    | nil => rcases hp with h | h <;> simp at h
+    | cons x l =>
+      simp only [memchrLoop, rd_of_drop_cons hd, ok_bind, List.take_succ_cons, List.findIdx?_cons]
+      by_cases hx : x = c
+      · simp [hx]
+      · have hp' : r ≤ l.length ∨ c ∈ l := by
+          rcases hp with h | h
+          · left; simpa using h
+          · right
+            rcases List.mem_cons.mp h with h | h
+            · exact absurd h.symm hx
+            · exact h
+        have hd' : b.drop (p + (i + 1)) = l := by
+          have := drop_succ_of_drop_cons hd
+          rwa [Nat.add_assoc] at this
+        rw [if_neg hx, ih l (i + 1) hd' hp']
+        simp only [beq_iff_eq, hx, if_false, Bool.false_eq_true, Option.map_map]
+        congr 2
+        funext k
+        simp only [Function.comp]
+        omega
+
+theorem strchrLoop_spec (b : Buf) (c : Nat) : ∀ (l : List Nat) (s f : Nat), b.drop s = l → 0 ∈ l → l.length < f →
+    strchrLoop b c f s = .ok (((l.takeWhile (· ≠ 0) ++ [0]).findIdx? (· == c)).map (fun k => s + k)) := by
+  intro l
+  induction l with
+  | nil => intro s f _ h0; simp at h0
+  | cons x l ih =>
+    intro s f hd h0 hf
+    cases f with
+    | zero => simp at hf
+    | succ f =>
+      simp only [strchrLoop, rd_of_drop_cons hd, ok_bind]
+      by_cases hx : x = 0
+      · subst hx
+        by_cases hc : c = 0
+        · simp [hc, List.findIdx?_cons]
+        · have : ¬ (0 = c) := fun e => hc e.symm
+          simp [hc, this, List.findIdx?_cons]
+      · simp only [hx, if_false]
+        by_cases hxc : x = c
+        · subst hxc
+          simp [List.takeWhile_cons, hx, List.findIdx?_cons]
+        · rw [if_neg hxc, ih (s + 1) f (drop_succ_of_drop_cons hd) (mem_tail_of_ne h0 hx) (by simpa using hf)]
+          simp only [List.takeWhile_cons, ne_eq, hx, not_false_eq_true, decide_true, if_true, List.cons_append,
+            List.findIdx?_cons, beq_iff_eq, hxc, if_false, Bool.false_eq_true, Option.map_map]
+          congr 2
+          funext k
+          simp only [Function.comp]
+          omega
+
+
 end Tetl.C18
